@@ -505,6 +505,24 @@ pub fn run(ctx: &Ctx) -> i32 {
     });
     acc = acc.merge(acc2);
     acc.notes.insert("strings_long".into(), json!({"count": space2.len() - lo, "len": max_len2, "options": 2, "positions": 4}));
+    // block-style pass: every string up to 6 (thorough 8) characters over {a, blank, line break} under a small fold
+    // width, so that literal / folded block scalars with leading blanks, blank-only lines and trailing breaks
+    // are all produced, in every position
+    {
+        static BLOCK_ALPHABET: [&str; 3] = ["a", " ", "\n"];
+        let sp3 = StrSpace::new(&BLOCK_ALPHABET, ctx.tier.pick(6, 8));
+        let bopts = [SerOpts { wrap: 1, ..SerOpts::default() }, SerOpts { wrap: 1, indent: 3, ..SerOpts::default() }, SerOpts { wrap: 1, compact: true, ..SerOpts::default() }, SerOpts::default()];
+        let nb = bopts.len() as u64;
+        let n3 = sp3.len() * n_pos * nb;
+        let acc3 = run_indexed(&p, n3, |i| {
+            let o = bopts[(i % nb) as usize];
+            let r = i / nb;
+            let pos = positions[(r % n_pos) as usize];
+            Some(Case { val: Val::Str(sp3.get(r / n_pos)), pos, opts: o })
+        });
+        acc = acc.merge(acc3);
+        acc.notes.insert("strings_block_pass".into(), json!({"count": sp3.len(), "alphabet": BLOCK_ALPHABET, "max_len": ctx.tier.pick(6, 8), "options": nb, "positions": n_pos}));
+    }
     // other scalar kinds x positions x (flag) options
     let mut others: Vec<Val> = int_vals();
     others.extend([Val::Bool(true), Val::Bool(false), Val::Unit, Val::OptNone]);
